@@ -31,9 +31,12 @@ enum { EOK_ = 0, ESNULLP_ = 400, ESZEROL_ = 401, ESLEMIN_ = 402, ESLEMAX_ = 403,
 #define F_ERRNO 0x0100  /* reports only through errno: no code comparison (C05) */
 #define F_WIDE  0x0200  /* wide/multibyte: run in both locales */
 #define F_CE1   0x0400
+#define F_NONULL 0x1000  /* the API documents no null-pointer constraint (timingsafe_*): NULL is never passed */
+#define F_LAX    0x2000  /* the API documents no runtime-constraint reporting: C05 iv/v not demanded */
+#define F_DMAX0OK 0x4000 /* dmax == 0 is not by itself a documented violation (memset family) */
 #define F_SAMELEN 0x0800 /* the src operand has exactly dmax elements (no separate length) */  /* on error only dest[0] is documented to be cleared (not all dmax) */
 
-enum { RT_E, RT_P, RT_B, RT_Z, RT_I };           /* errno_t / pointer+errp / bool / count / negative int */
+enum { RT_E, RT_P, RT_B, RT_Z, RT_I, RT_V };   /* RT_V: plain int value, no failure indication */           /* errno_t / pointer+errp / bool / count / negative int */
 enum { LIM_STR, LIM_WSTR, LIM_MEM, LIM_MEM16, LIM_MEM32, LIM_WMEM };
 
 typedef struct Case Case;
@@ -88,8 +91,8 @@ struct Ctx {
     unsigned char *dl, *dh;   /* dest: lib view / harness view (same bytes) */
     unsigned char *sl_, *sh;  /* src */
     size_t dbytes, sbytes;    /* object bytes */
-    unsigned char dsnap[MAXE * 4 + 64];  /* pre-call dest object */
-    unsigned char ssnap[MAXE * 4 + 64];
+    unsigned char dsnap[16384 + 64];     /* pre-call dest object (limit-sized operands fit) */
+    unsigned char ssnap[16384 + 64];
     /* results */
     long rc;
     long out;                 /* value of the out parameter after the call (oI/oZ/oP/oE) */
